@@ -320,7 +320,19 @@ func hijacked(c *fw.Ctx, e *env, r *fw.Rand) {
 			}
 			wantCalls = []string{"Cluster.RepoGC"}
 		}
-		full := e.base + p
+		// a quarter of the requests percent-escape one character of the command
+		// part of the path (the same request for every HTTP server and for the daemon)
+		sent := p
+		escaped := "plain"
+		if r.Chance(1, 4) {
+			k := len("/api/v0/") + r.Intn(len(route))
+			sent = p[:k] + fmt.Sprintf("%%%02X", p[k]) + p[k+1:]
+			escaped = "escaped-letter"
+			if p[k] == '/' {
+				escaped = "escaped-slash"
+			}
+		}
+		full := e.base + sent
 		if len(q) > 0 {
 			full += "?" + q.Encode()
 		}
@@ -335,6 +347,7 @@ func hijacked(c *fw.Ctx, e *env, r *fw.Rand) {
 		calls := e.rec.Calls()
 		dreqs := e.ipfs.Requests()
 		c.Eval(fmt.Sprintf("hijack/%s/%s/%s/valid=%v/%d", route, style, method, argValid, res.status/100))
+		c.Cover(fmt.Sprintf("hijack/%s/%s", route, escaped))
 		if saw := daemonSaw(dreqs, strings.SplitN(p, "?", 2)[0]); len(saw) > 0 {
 			c.Violation("C12/hijacked-request-reached-daemon/"+route, fmt.Sprintf("%s %s: the daemon received %s %s?%s", method, full, saw[0].Method, saw[0].Path, saw[0].RawQuery), nil)
 		}
